@@ -83,6 +83,7 @@ def main(argv):
         rec = case.to_record()
         rec['kind'] = 'case'
         f.write(json.dumps(rec) + '\n')
+        f.flush()     # a shard killed by the driver's timeout must show which case it was on
         ran += 1
     tail = {'kind': 'tail', 'shard': shard, 'ran': ran, 'wall_s': time.time() - t0,
             'reach': reach.counts()}
